@@ -6,8 +6,32 @@ SPEC = dict(
     level="proof",
     design_ref="DESIGN.md §5 C12",
     technique="Lean 4 simulation proofs over interaction-tree models of every push combinator (all downstream answer patterns, all caller histories) + differential correspondence with the real dfir_pipes::push code under the real SendPush/SendSink drivers",
-    level_text=("(filled in below)"),
-    level_note=("(filled in below)"),
+    level_text=("Every push combinator is modelled as three Prog-valued operations whose only effects are poll_ready/start_send/"
+                "poll_finalize calls on numbered downstream ports; Emits/Comb.Tr quantify over every downstream behaviour (every "
+                "Pending pattern on every port, independently) and every caller history. Proved (Comb.Sound, by simulation "
+                "invariants): if the caller honours the push contract (send only directly enabled by ready?true, no send once "
+                "finalize was called) then every downstream port sees a contract-honouring trace and, once the caller got "
+                "finalize?true, every port was finalized and received exactly the specified items in order, for: map, filter, "
+                "filter_map, &mut P / Sink adapter, inspect, flat_map, flatten, fanout, unzip, demux_var (n ports), "
+                "Accumulate with fold/reduce/sort states, Sort, fold_keyed/reduce_keyed (any hash order), persist (+ buffer "
+                "content), filter_map_async, flat_map_stream/flatten_stream, state_push, for_each/vec_push, ResolveFutures in "
+                "blocking mode over a scripted queue. The standard driver SendPush::poll (= SendSink over SinkCompat) is proved "
+                "for every pull script and poll count to honour the contract, finalize only after the pull ended and deliver "
+                "exactly the pull's items; sendPush_end_to_end and pipeline_compose chain these along arbitrary pipelines. "
+                "Tie: the same op lines (bounded-exhaustive answer scripts per port x inputs x pull Pending placements + random "
+                "driver cases + adaptive contract-conforming manual call histories incl. re-polling after Done) are run on the real "
+                "combinators under the real SendPush/SendSink and on the compiled model; the global downstream call trace of "
+                "every poll/call and the external state left behind are diffed; the contract and delivered-items oracle is "
+                "evaluated on the real trace against an independent iterator-level spec. Partial: ResolveFutures with a "
+                "subgraph_waker (non-blocking) is modelled and correspondence-checked but has no Sound theorem (it may emit a "
+                "late-resolving future after the downstream's finalize was started)."),
+    level_note=("Trusted/modelled-not-verified: Pin, Context merging, Toggle and size_hint are erased; closures are fixed pure "
+                "functions in the correspondence and arbitrary pure functions in the theorems; HashMap iteration order is an "
+                "arbitrary function `order` (keyed sends compared as multisets); futures, streams and the futures queue are "
+                "scripts (the harness's own ScriptQueue, not FuturesOrdered/FuturesUnordered); out-of-range DemuxVar indices and "
+                "contract-violating callers panic in the real code and are outside the theorems (panic answers are compared for "
+                "demux); liveness (that a Pending downstream is polled again) is the executor's job and only observed (every "
+                "generated run completes)."),
     trusted_base=["Pin / Context merging / Toggle type-level bookkeeping and size_hint forwarding are erased in the model",
                   "std HashMap iteration order in FoldKeyed/ReduceKeyed is an arbitrary permutation in the theorems; keyed sends are compared as multisets",
                   "futures queue of ResolveFutures and the futures/streams of FilterMapAsync/FlatMapStream are scripts (pending k times, then a value)"],
